@@ -190,11 +190,34 @@ def run (ctx):
         if isinstance(t, ast.Name) and isinstance(v, ast.Constant) and v.value is True:
           fn_ = q.enclosing_stmt_node(g, st)
           if fn_ is not None and an is not None and (g.postdominates(fn_, an) or g.dominates(fn_, an)): flagnames.add(t.id)
+    # the update loop may live in the table class: `n = table.<method>(match, actions, priority=.., strict=..)` where that method counts (or
+    # flags) exactly the entries selected by is_matched_by(<its match>, <its priority>, <its strict>) and rewrites their actions
+    summary_callee = []
+    def counts_matches (callee):
+      gc_ = q.cfg_of(callee); ps_ = callee.params
+      rets_ = [r_ for r_ in q.returns_of(callee.node) if r_.value is not None]
+      if len(rets_) != 1 or not isinstance(rets_[0].value, ast.Name): return False
+      rn_ = rets_[0].value.id
+      ds_ = q.reaching_assign(callee.node, rn_)
+      init_ = [v_ for v_, st_, k_ in ds_ if k_ == 'assign']
+      steps_ = [st_ for v_, st_, k_ in ds_ if k_ != 'assign'] + [st_ for v_, st_, k_ in ds_ if k_ == 'assign' and isinstance(v_, ast.Constant) and v_.value is True]
+      if not init_ or not any(isinstance(v_, ast.Constant) and v_.value in (0, False) for v_ in init_) or not steps_: return False
+      for st_ in steps_:
+        n_ = q.enclosing_stmt_node(gc_, st_)
+        if n_ is None or not any('is_matched_by(' in f_ and f_.endswith(':truthy') for f_ in q.fact_strs(gc_, n_)): return False
+      acts_ = [st_ for t_, v_, st_, k_ in q.stores_in(callee.node) if isinstance(t_, ast.Attribute) and t_.attr == 'actions']
+      return bool(acts_) and all(any('is_matched_by(' in f_ and f_.endswith(':truthy') for f_ in q.fact_strs(gc_, q.enclosing_stmt_node(gc_, st_))) for st_ in acts_ if q.enclosing_stmt_node(gc_, st_) is not None)
+    for t, v, st, k in q.stores_in(md.node, nested=False):
+      if isinstance(t, ast.Name) and isinstance(v, ast.Call) and isinstance(v.func, ast.Attribute) and norm(v.func.value) in ('table', 'self.table'):
+        callee = ft.find_method(call_name(v))
+        if callee is not None and call_name(v) not in ('matching_entries',) and counts_matches(callee):
+          args_ = [norm(a_) for a_ in v.args] + [norm(k_.value) for k_ in v.keywords]
+          if any(a_ in ('match', 'flow_mod.match') for a_ in args_) and any(a_ in ('priority', 'flow_mod.priority') for a_ in args_) and 'strict' in args_: flagnames.add(t.id); summary_callee.append(callee)
     for a in addc:
       fs = q.fact_strs(g, a)
       good = any(f == nm + ':falsy' for nm in flagnames | set(coll_names) for f in fs) or any(f in ('len(%s) == 0' % nm for nm in coll_names) for f in fs)
       ctx.ob('R-DOM', md, "modify acts as add only when no entry matched", good, "dominated by `not <modified / selected entries>`" if good else "facts %s" % fs, (swmod, a.ast), 'D3')
-    ctx.floor('modify: action replacement sites', len(acts), 1)
+    ctx.floor('modify: action replacement sites', len(acts) + len(summary_callee), 1)
     for a in acts:
       an = q.enclosing_stmt_node(g, a)
       guards = [(t, p) for t, p, b_ in g.guards(an) if not isinstance(t, (ast.For, ast.AsyncFor))]
@@ -226,6 +249,12 @@ def run (ctx):
       scans += 1
       good = norm(L_.it) in ('table.entries', 'table._table')
       ctx.ob('R-AGREE', md, "modify scans the whole table", good, norm(L_.it), (swmod, L_.site), 'D7')
+    for callee in summary_callee:
+      # the loop lives in the table class: it walks the table's own list
+      for st_ in [x_ for x_ in ast.walk(callee.node) if isinstance(x_, ast.For)]:
+        scans += 1
+        good = norm(st_.iter) in ('self._table', 'self.entries')
+        ctx.ob('R-AGREE', callee, "modify scans the whole table", good, norm(st_.iter), (callee.module, st_), 'D7')
     ctx.floor('modify: table scans', scans, 1)
 
   # ---- overlap scan: an early exit from a scan of the sorted table may only be decided on the sort key ----------
